@@ -260,8 +260,9 @@ fn spaced_names(ctx: &Ctx, rep: &mut Report, idx: &mut u64) {
         let pool = samples::pool(k, ctx.seed);
         let dir = scratch::path(&format!("c08sp{k}"));
         let _ = std::fs::create_dir_all(&dir);
-        let fnames = ["sample.fa", "sample A.fa", "other.fa", "x 1.fa"];
-        let names: Vec<String> = vec!["sample".into(), "sample A".into(), "other".into(), "x 1".into()];
+        // names with spaces; and files whose extension the builder does not strip (or that have none), so that the sample
+        // name IS the name of a file that still lies in the working directory
+        let fnames = ["sample.fa", "sample A.fa", "other.fna", "x 1.fas", "plain"];
         for (i, f) in fnames.iter().enumerate() {
             std::fs::write(format!("{dir}/{f}"), scratch::fasta(&pool[i])).unwrap();
         }
@@ -279,12 +280,16 @@ fn spaced_names(ctx: &Ctx, rep: &mut Report, idx: &mut u64) {
                 continue;
             }
         };
-        if orig.table.names != names {
-            // the builder derives other names than assumed: nothing to check here
-            rep.corner("spaced_names_not_derived_as_assumed");
+        // whatever names the builder derived (file name with or without its extension) are the samples' names
+        let names: Vec<String> = orig.table.names.clone();
+        if names.len() != fnames.len() || !names.iter().any(|n| n.contains(' ')) {
+            rep.machinery(format!("C08 spaced names: unexpected sample names {names:?}"));
             continue;
         }
-        for del in [vec!["sample A".to_string()], vec!["x 1".to_string(), "sample".to_string()], vec!["sample".to_string()]] {
+        if names.iter().any(|n| std::path::Path::new(&format!("{dir}/{n}")).is_file()) {
+            rep.corner("sample_name_is_an_existing_file_name");
+        }
+        for del in [vec![names[1].clone()], vec![names[3].clone(), names[0].clone()], vec![names[0].clone()], vec![names[2].clone()], vec![names[4].clone()], vec![names[3].clone()], vec![names[4].clone(), names[2].clone()]] {
             let want = orig.table.delete(&del);
             for via_file in [false, true] {
                 rep.evaluations += 1;
